@@ -46,6 +46,11 @@ func (c *GlobCache) Get(pattern string) (glob.Glob, error) {
 		return nil, err
 	}
 
+	// a cache without capacity cannot store anything
+	if len(c.l) == 0 {
+		return glbCompiled, nil
+	}
+
 	c.mu.Lock()
 	defer c.mu.Unlock()
 
@@ -71,6 +76,6 @@ func (c *GlobCache) Get(pattern string) (glob.Glob, error) {
 	c.m.Delete(c.l[c.h])
 	c.m.Store(pattern, glbCompiled)
 	c.l[c.h] = pattern
-	c.h = (c.h + 1) % c.n
+	c.h = (c.h + 1) % len(c.l)
 	return glbCompiled, nil
 }
